@@ -294,7 +294,7 @@ def run_stat_method(model, meta, method=None):
     if len(F[0]) != 1:
         F[0] = b"S"
     data = build_stat(pid, comm, F)
-    meth = method or meta["contract"].split(".")[-1]
+    meth = method or meta["contract"].split(".")[-1].split("[")[0].split(" ")[0]
     bt_cached = model.get("BOOT_TIME")
     with fake_procfs({f"{pid}/stat": data}):
         _pslinux.BOOT_TIME = float(num(bt_cached)) if bt_cached is not None else None
@@ -547,6 +547,12 @@ def c14_open_files(model, meta):
             elif kind == "deleted_exists":
                 tgt = f"{d}/files/odd{fd} (deleted)"
                 open(tgt, "w").close()
+            elif kind == "deleted_suffix_chars":
+                # the bogus suffix on a file that exists under its real name, whose name ends in characters that also occur
+                # in ' (deleted)': only the 10-character suffix goes, not every trailing character of that set
+                tgt0 = f"{d}/files/old_{fd}_deleted"
+                open(tgt0, "w").close()
+                tgt = tgt0 + " (deleted)"
             elif kind == "socket":
                 tgt = f"socket:[{1000 + fd}]"
             elif kind == "pipe":
@@ -571,6 +577,8 @@ def c14_open_files(model, meta):
                     f.write(f"pos:\t{pos}\nflags:\t0{flags:o}\nmnt_id:\t25\n")
             if kind in ("file", "deleted_exists"):
                 want.append((tgt, fd, pos, expected_mode(flags), flags))
+            if kind == "deleted_suffix_chars":
+                want.append((tgt0, fd, pos, expected_mode(flags), flags))
         old = psutil.PROCFS_PATH
         psutil.PROCFS_PATH = d
         import builtins
@@ -641,7 +649,8 @@ def c14_open_files(model, meta):
 def c14_open_files_search(meta, seed, budget):
     import random
     rng = random.Random(seed)
-    kinds = ["file", "deleted_gone", "deleted_exists", "socket", "pipe", "device", "relative", "dir", "nofdinfo",
+    kinds = ["file", "deleted_gone", "deleted_exists", "deleted_suffix_chars", "socket", "pipe", "device", "relative", "dir",
+             "nofdinfo",
              "esrch_fdinfo", "esrch_readlink", "enoent_readlink", "enoent_read_fdinfo", "esrch_read_fdinfo"]
     extras = [0, os.O_APPEND, os.O_CREAT | os.O_TRUNC, os.O_CLOEXEC, os.O_APPEND | os.O_CLOEXEC | 0o100000]
     n = 0
@@ -2341,7 +2350,8 @@ def c11_sockets_search(meta, seed, budget):
     rng = random.Random(seed)
     v4 = ["0.0.0.0", "127.0.0.1", "10.0.0.5", "255.255.255.255", "192.168.1.77", "1.2.3.4"]
     v6 = ["::", "::1", "::ffff:127.0.0.1", "fe80::1ff:fe23:4567:890a", "2001:db8::8a2e:370:7334", "ff02::1"]
-    paths = ["", "/run/x.sock", "@abstract", "/tmp/my sock dir/s k", "/a:b", "@a b"]
+    paths = ["", "/run/x.sock", "@abstract", "/tmp/my sock dir/s k", "/a:b", "@a b", "/tmp/two  spaces/s", "@tail ",
+             "/x   y  z"]
     kinds = list(KIND_TABLE)
     corpus = [
         {"sockets": [{"proto": "unix", "inode": 1001, "holders": [[200, 3], [200, 4]], "path": "/a", "utype": 1},
